@@ -92,6 +92,17 @@ def step (s : St) (j : Json) : R (St × Json) := do
   | "new_doc" =>
     let (h, c) := s.h.newDoc
     return (← { s with h := h }.bindCont j c, Json.mkObj [])
+  | "new_from" =>
+    let rs ← (← (← j.getObjVal? "recs").getArr?).toList.mapM (fun e => do
+      let n ← e.getNat?
+      match s.recs[n]? with
+      | some r => pure r
+      | none => throw s!"unknown record handle {n}")
+    let isB ← (← j.getObjVal? "bundle").getBool?
+    let (h1, c) := s.h.allocCont (!isB) none [] none
+    match h1.addRecords c rs with
+    | (h2, none) => return (← { s with h := h2 }.bindCont j c, errJson none)
+    | (h2, some e) => return ({ s with h := h2 }, errJson (some e))
   | "add_ns" =>
     let c ← s.cont j "c"
     let p ← (← j.getObjVal? "p").getStr?
